@@ -105,7 +105,7 @@ func genHist(rt *rapid.T) histPlan {
 		switch rapid.IntRange(0, 19).Draw(rt, "outcome") {
 		case 16, 17, 18:
 			o.Kind = "ok"
-			o.DelayNs = rapid.SampledFrom([]int64{1e6, 0, 1, 1e9, 60e9, 7e8}).Draw(rt, "lifetime")
+			o.DelayNs = rapid.SampledFrom([]int64{1e6, 1, 1e9, 60e9, 7e8, 2}).Draw(rt, "lifetime") // never 0: a connection closed before the handshake is not a success
 		case 19:
 			o.Kind = "hang"
 		case 13, 14, 15:
